@@ -14,6 +14,7 @@ import (
 	"sort"
 	"strings"
 	"sync"
+	"sync/atomic"
 	"time"
 
 	"golang.org/x/tools/go/ssa"
@@ -50,13 +51,14 @@ type inputRec struct {
 }
 
 type violation struct {
-	Harness   string     `json:"harness"`
-	ID        string     `json:"assert_id"`
-	Kind      string     `json:"kind"` // assert, panic
-	Msg       string     `json:"msg"`
-	Inputs    []inputRec `json:"inputs"`
-	Decisions []int      `json:"decisions"`
-	Site      string     `json:"site,omitempty"`
+	Harness   string         `json:"harness"`
+	ID        string         `json:"assert_id"`
+	Kind      string         `json:"kind"` // assert, panic
+	Msg       string         `json:"msg"`
+	Inputs    []inputRec     `json:"inputs"`
+	Decisions []int          `json:"decisions"`
+	Site      string         `json:"site,omitempty"`
+	Params    map[string]int `json:"params,omitempty"`
 }
 
 type explorer struct {
@@ -101,6 +103,15 @@ type explorer struct {
 	sumFail     map[string]int
 	ufs         map[string]bool
 	replay      *violation
+	params      map[string]int
+	setargs     []setArg
+	noPresolve  bool
+	preDecided  atomic.Int64
+}
+
+type setArg struct {
+	prefix   string
+	idx, val int
 }
 
 type oblStat struct {
@@ -160,6 +171,7 @@ type world struct {
 	sv2       *solver
 	sum       *sumState
 	replayPos int
+	doms      *domState
 }
 
 func (fr *frame) where() string {
@@ -330,7 +342,14 @@ func (w *world) addPC(t *Term) {
 	if t.isTrue() {
 		return
 	}
+	if t.op == "and" {
+		for _, a := range t.args {
+			w.addPC(a)
+		}
+		return
+	}
 	w.pc = append(w.pc, t)
+	w.domNote(t)
 }
 
 func (w *world) flushPC() {
@@ -348,6 +367,14 @@ func (w *world) feasible(t *Term) satResult {
 		if t.isTrue() {
 			t = nil
 		}
+	}
+	if t != nil {
+		if r, ok := w.preFeasible(t); ok {
+			w.ex.preDecided.Add(1)
+			return r
+		}
+	} else {
+		return rSat // the path condition is satisfiable by invariant
 	}
 	w.flushPC()
 	r := w.sv.check(t)
@@ -685,7 +712,7 @@ func (w *world) reportViolation(kind, id, msg string, extra *Term) {
 	v := violation{
 		Harness: w.ex.entry.Name(), ID: id, Kind: kind, Msg: msg,
 		Inputs: w.modelInputs(m), Decisions: append([]int{}, w.decisions[:w.pos]...),
-		Site: w.panicSite,
+		Site: w.panicSite, Params: w.ex.params,
 	}
 	w.ex.mu.Lock()
 	w.ex.violations = append(w.ex.violations, v)
@@ -807,6 +834,7 @@ func (w *world) resetPath(prefix []int) {
 	w.onceDone = make(map[*value]bool)
 	w.sliceData = make(map[*value][]value)
 	w.replayPos = 0
+	w.doms = newDomState()
 	w.sv.reset()
 }
 
